@@ -63,6 +63,14 @@ def trees():
                      "foo_bar.txt": ("f", b"plain\n", 0o600),
                      "foo_bar_ln": ("l", "a.txt"),
                      "foo_bar_dangling": ("l", "nowhere/at/all")}
+    # an edited file that has a SECOND HARD LINK outside the scanned part of the tree (a directory named in `.ignore`),
+    # as in a pnpm store or a `cp -al` snapshot.  Apply / undo replace the file by
+    # temp + rename, so the other name keeps the old bytes and no crash can truncate either name.
+    t["e2r1hard"] = {"a.txt": ("f", b"x foo_bar y\n", 0o644),
+                     "b.txt": ("f", b"second foo_bar\n", 0o644),
+                     "foo_bar.txt": ("f", b"plain\n", 0o600),
+                     ".ignore": ("f", b"store/\n", 0o644),
+                     "store/a_alias.txt": ("f", b"x foo_bar y\n", 0o644, "a.txt")}
     t["e2r2flat"] = {"foo_bar_a.txt": ("f", b"foo_bar\n", 0o644), "foo_bar_b.txt": ("f", b"x\n", 0o644),
                      "c.txt": ("f", b"fooBar\n", 0o644)}
     return t
@@ -71,12 +79,13 @@ def trees():
 def family(thorough):
     """list of scenarios {name, tree, cmd, setup}; the first entries are the quick tier"""
     quick = [("e3r2nest", "rename", "old"), ("e2r3nest", "apply", "fresh"), ("e2r1", "redo", "old"), ("e1r2link", "redo", "fresh"),
+             ("e2r1hard", "apply", "fresh"),
              ("e2r1", "replace", "fresh"), ("e3r2nest", "undo", "old")]
     more = [("e2r2dirs", "apply", "fresh"), ("e1r0", "rename", "fresh"), ("e2r2dirs", "rename", "fresh"), ("e3r0", "apply", "old"),
             ("e1r1", "apply", "fresh"), ("e2r2flat", "rename", "old"), ("e2r2dirs", "redo", "fresh"),
             ("e2r2dirs", "undo", "fresh"), ("e2r1", "undo", "fresh"), ("e1r1", "replace", "old"),
             ("e3r2nest", "apply", "old"), ("e3r0", "redo", "old"), ("e1r2link", "apply", "old"), ("e1r2link", "undo", "fresh"),
-            ("e1r2link", "rename", "fresh")]
+            ("e1r2link", "rename", "fresh"), ("e2r1hard", "undo", "fresh"), ("e2r1hard", "redo", "old")]
     T = trees()
     out = []
     for name, cmd, setup in quick + (more if thorough else []):
@@ -89,7 +98,7 @@ OTHER_S, OTHER_R = "omega_word", "omega_done"
 
 def full_tree(sc):
     # every file of the scenario also carries a second, unrelated term, so that a DIFFERENT rename touches the same files
-    t = {k: (("f", v[1] + b"omega_word tail\n", v[2]) if v[0] == "f" else v) for k, v in sc["tree"].items()}
+    t = {k: (("f", v[1] + b"omega_word tail\n", v[2]) + tuple(v[3:]) if v[0] == "f" else v) for k, v in sc["tree"].items()}
     t.update(EXTRA)
     if sc["setup"] == "old":
         t.update(OLD_EXTRA)
@@ -325,16 +334,24 @@ def apply_perturbation(d, p):
     """stale-plan perturbations between `plan` and `apply`: p = (kind, relpath)"""
     kind, rel = p
     path = os.path.join(d, rel)
+
+    def put(data):
+        # like an editor that saves through a new file: another hard link to the old inode keeps the old bytes
+        # (the tree model has independent files, so an in-place write through a shared inode would not be expressible)
+        mode = os.stat(path).st_mode & 0o7777
+        tmp = path + ".perturb.tmp"
+        with open(tmp, "wb") as fh:
+            fh.write(data)
+        os.chmod(tmp, mode)
+        os.replace(tmp, path)
     if kind == "edited":
-        data = open(path, "rb").read()
-        open(path, "wb").write(b"INSERTED " + data)
+        put(b"INSERTED " + open(path, "rb").read())
     elif kind == "truncated":
-        open(path, "wb").write(b"f")
+        put(b"f")
     elif kind == "deleted":
         os.unlink(path)
     elif kind == "latin1":
-        data = open(path, "rb").read()
-        open(path, "wb").write(b"caf\xe9 " + data)
+        put(b"caf\xe9 " + open(path, "rb").read())
     elif kind == "occupied":
         with open(path, "wb") as fh:          # rel = a planned destination
             fh.write(b"occupant\n")
